@@ -327,3 +327,41 @@ CORPUS = {
         E("loop magnitude with the sign moved inside", (EM, "mag = -mu_0 * current * a / (np.pi * m) * (((m - 2) * K + 2 * E)) / np.sqrt(denom)", "mag = mu_0 * current * a / (np.pi * m) * ((2 - m) * K - 2 * E) / np.sqrt(denom)")),
     ],
 }
+
+
+# ---------------------------------------------------------------------------
+# generic behaviour-preserving transformations of the anchor functions
+# ---------------------------------------------------------------------------
+ANCHORS = {
+    "C01": [(SOLVER, "TDGLSolver.solve_for_observables"), (SOLVER, "TDGLSolver.update_mu_boundary"), (OPS, "build_divergence"),
+            (OPS, "build_neumann_boundary_laplacian"), (DEVICE, "Device.terminal_info"), (SOLVER, "validate_terminal_currents")],
+    "C02": [(SOLVER, "TDGLSolver.solve_for_psi_squared")],
+    "C03": [(OPS, "build_divergence"), (OPS, "build_gradient"), (OPS, "build_laplacian"), (OPS, "build_neumann_boundary_laplacian"),
+            (EMESH, "EdgeMesh.from_mesh"), (OPS, "MeshOperators.build_operators")],
+    "C04": [(OPS, "MeshOperators.set_link_exponents"), (OPS, "build_gradient"), (OPS, "build_laplacian"), (SOLVER, "TDGLSolver.solve_for_psi_squared")],
+    "C05": [(RUNNER, "Runner._run_stage"), (RUNNER, "Runner.run"), (RUNNER, "DataHandler._write_time_step"), (SOLN, "Solution.times"),
+            (DATA, "DynamicsData.from_hdf5")],
+    "C06": [(OPS, "build_laplacian"), (OPS, "MeshOperators.set_link_exponents"), (DEVICE, "Device.terminal_info")],
+    "C07": [(UTIL, "generate_voronoi_vertices"), (UTIL, "get_edges"), (UTIL, "get_dual_edge_lengths"), (EMESH, "EdgeMesh.from_mesh")],
+    "C08": [(CONST, "constant_field_vector_potential"), (EM, "uniform_Bz_vector_potential"), (DEVICE, "Device.K0")],
+    "C09": [(SCREEN, "get_A_induced_numba"), (DIST, "euclidean_distance_2d"), (EM, "_biot_savart_2d_z"), (SOLVER, "validate_terminal_currents"),
+            (RUNNER, "Runner._run_stage")],
+    "C10": [(OPS, "MeshOperators.set_link_exponents"), (OPS, "MeshOperators.__init__"), (OPS, "build_laplacian")],
+    "C11": [(RUNNER, "Runner._run_stage"), (RUNNER, "DataHandler._write_time_step")],
+    "C12": [(SOLVER, "TDGLSolver.adaptive_euler_step")],
+    "C13": [(SCREEN, "get_A_induced_numba"), (SOLVER, "TDGLSolver.get_induced_vector_potential")],
+    "C14": [(LAYER, "Layer.from_hdf5"), (MESH, "Mesh.to_hdf5"), (MESH, "Mesh.from_hdf5"), (DEVICE, "Device.from_hdf5"), (DATA, "DynamicsData.from_hdf5")],
+    "C15": [(RUNNER, "DataHandler._create_output_file"), (RUNNER, "DataHandler.save_time_step"), (RUNNER, "Runner._run_stage")],
+    "C16": [(PARAM, "CompositeParameter.__init__"), (PARAM, "CompositeParameter.__call__")],
+    "C17": [(OPS, "build_laplacian"), (SOLVER, "TDGLSolver.solve_for_psi_squared")],
+    "C18": [(POLY, "Polygon._join_via"), (DEVICE, "Device.copy"), (DEVICE, "Device.contains_points")],
+    "C19": [(OPTIONS, "SolverOptions.validate"), (SOLVER, "validate_terminal_currents")],
+    "C20": [(EM, "_biot_savart_2d_vector"), (EM, "_biot_savart_2d_z"), (EM, "current_loop_vector_potential"), (EM, "convert_field"),
+            (DIST, "euclidean_distance_3d"), (EM, "biot_savart_2d")],
+}
+for _p, _anchors in ANCHORS.items():
+    for _f, _q in _anchors:
+        CORPUS[_p].append(E(f"locals of {_q} renamed (AST transform, whole file re-emitted by ast.unparse)", (_f, "@rename_locals", _q)))
+    _files = sorted({f for f, _ in _anchors})
+    CORPUS[_p].append(E("anchor files round-tripped through ast.unparse (comments dropped, all line numbers moved)",
+                        *[(f, "@reformat", "") for f in _files]))
